@@ -167,6 +167,14 @@ pub fn build_proof(r: &mut Rng, pool: &Pool, tab: &mut SigTab, s: &SSet, domain:
         21 => { // first genuine, the rest garbage
                 if n > 0 { sigs[0] = Some(sign(tab, skey(0), &d)); for i in 1..n { sigs[i] = Some(vec![0x42u8; 64]); } }
                 label = if n >= 2 { "first_genuine_rest_garbage" } else { "all_sign" }; }
+        22 => { // the registered set restated with a LOWER threshold (the first signer's weight): only the first signer signs, over the digest of the restated set
+                let mut s2 = s.clone(); if n > 0 { s2.threshold = s.signers[0].weight.clone(); }
+                let d2 = digest(domain, &s2.hash(), &dh);
+                if n > 0 { sigs[0] = Some(sign(tab, skey(0), &d2)); }
+                let mut bytes = s2.encode(0);
+                bytes.extend_from_slice(&(sigs.len() as u32).to_be_bytes());
+                for sg in &sigs { match sg { None => bytes.push(0), Some(x) => { bytes.push(1); bytes.extend_from_slice(x); } } }
+                return ProofSpec { label: "restated_lower_threshold", bytes }; }
         _ => { for &i in &quorum { sigs[i] = Some(sign(tab, skey(i), &d)); }
                // a bad option tag
                label = "minimal_quorum"; }
@@ -289,7 +297,7 @@ pub fn run(seed: u64, ntraces: usize) {
                 if r.chance(1, 15) { raw.push(7); mlabel = "batch_trailing_byte"; }
                 if r.chance(1, 20) && !raw.is_empty() { raw.truncate(raw.len() - 1); mlabel = "batch_truncated"; }
                 let (slabel, set) = g.pick_set(&mut r);
-                let variant = if r.chance(1, 2) { r.below(2) } else { r.below(22) };
+                let variant = if r.chance(1, 2) { r.below(2) } else { r.below(23) };
                 let G { pool, tab, domain, .. } = &mut g;
                 let p = build_proof(&mut r, pool, tab, &set, domain, 0, &raw, variant);
                 let caller = r.pick(&callers).clone();
@@ -304,7 +312,7 @@ pub fn run(seed: u64, ntraces: usize) {
                 let mut raw = newset.encode(npad);
                 if forced_rot.is_none() && r.chance(1, 20) { raw.push(0); }
                 let (slabel, set) = if let Some((_, which, _, _)) = forced_rot { let e = g.sets.len(); if which == 1 && e >= 2 { ("previous", g.sets[e - 2].clone()) } else { ("latest", g.sets[e - 1].clone()) } } else { g.pick_set(&mut r) };
-                let variant = if forced_rot.is_some() { 1 } else if r.chance(2, 3) { r.below(2) } else { r.below(22) };
+                let variant = if forced_rot.is_some() { 1 } else if r.chance(2, 3) { r.below(2) } else { r.below(23) };
                 let G { pool, tab, domain, .. } = &mut g;
                 let p = build_proof(&mut r, pool, tab, &set, domain, 1, &raw, variant);
                 let caller = if let Some((ci, _, _, _)) = forced_rot { callers[ci].clone() } else if r.chance(1, 2) { g.operator.clone() } else { r.pick(&callers).clone() };
